@@ -22,7 +22,7 @@ from elementpath.tdop import Token
 from elementpath.sequences import XSequence
 from elementpath.datatypes import AnyAtomicType, Timezone, Language
 from elementpath.etree import is_etree_element, is_etree_element_instance, is_etree_document
-from elementpath.xpath_nodes import XPathNode, AttributeNode, NamespaceNode, \
+from elementpath.xpath_nodes import XPathNode, AttributeNode, NamespaceNode, TextNode, \
     CommentNode, ProcessingInstructionNode, ElementNode, DocumentNode
 from elementpath.tree_builders import get_node_tree
 
@@ -578,11 +578,15 @@ class XPathContext:
 
     def iter_followings(self) -> Iterator[ta.ChildNodeType]:
         """Iterator for 'following' forward axis."""
-        if isinstance(self.item, ElementNode):
+        if isinstance(self.item, (ElementNode, TextNode, CommentNode, ProcessingInstructionNode)):
             status = self.item, self.axis
             self.axis = 'following'
 
-            descendants = set(self.item.iter_descendants())
+            descendants: set[XPathNode]
+            if isinstance(self.item, ElementNode):
+                descendants = set(self.item.iter_descendants())
+            else:
+                descendants = {self.item}
             position = self.item.position
 
             root: XPathNode = self.item
